@@ -71,6 +71,12 @@ func sha(b []byte) string {
 }
 
 func pkgSet(rev int) []*synthrepo.Pkg {
+	// revision 2 = revision 0 with ONE change: the control section of solo differs (a
+	// metadata-only rebuild under the same name-version), its data section is byte-identical
+	metaOnly := rev == 2
+	if metaOnly {
+		rev = 0
+	}
 	dirs := func(names ...string) []synthrepo.File {
 		var fs []synthrepo.File
 		for _, n := range names {
@@ -95,6 +101,9 @@ func pkgSet(rev int) []*synthrepo.Pkg {
 		synthrepo.File{Name: "srv/solo/a.bin", Mode: 0o644, Content: big[:9000]},
 		synthrepo.File{Name: "srv/solo/b.txt", Mode: 0o644, Content: []byte(fmt.Sprintf("solo data of revision %d\n", rev))},
 		synthrepo.File{Name: "srv/solo/c.bin", Mode: 0o600, Content: big[:1234]})}
+	if metaOnly {
+		solo.Description = "rebuilt: only the metadata changed"
+	}
 	if rev >= 1 {
 		// same name-version, different bytes (a rebuilt package) and a new version of lib
 		app.Files[len(app.Files)-2].Content = []byte("app rev1 -- rebuilt")
